@@ -805,7 +805,7 @@ def apply_contract(sig, clauses, ret="r"):
     return sig, text
 
 
-def normalize_params(sig, body, stats):
+def normalize_params(sig, body, stats, byref=False):
     """R1b: parameter patterns that are not plain identifiers (`_`, tuple patterns) are named
     `arg_N`, and the original pattern is bound by a `let` at the top of the body."""
     m = re.search(r"\bfn\s+\w+\s*(<[^()]*>)?\s*\(", sig)
@@ -854,6 +854,14 @@ def normalize_params(sig, body, stats):
             new.append(prm)
             continue
         nm = "arg_%d" % k
+        if byref and pat.startswith("(") and ty.startswith("("):
+            # R7 for free functions: a tuple of shared handles passed by value is checked by
+            # reference, so that the post-state of the cells is expressible
+            names = [re.sub(r"^mut\s+", "", x.strip()) for x in pat[1:-1].split(",") if x.strip()]
+            new.append(" %s: &mut %s" % (nm, ty))
+            lets.append("\n    let (%s) = (%s);" % (", ".join(names), ", ".join("&mut %s.%d" % (nm, i_) for i_ in range(len(names)))))
+            stats["R7"] += 1
+            continue
         new.append(" %s: %s" % (nm, ty))
         if pat != "_":
             lets.append("\n    let %s = %s;" % (pat, nm))
@@ -897,7 +905,7 @@ def process_fn(fn, spec, handle, stats, canary):
     for (expr, why) in spec.assumes.get(name, []):
         e2 = replace_self(expr) if (by_value and not handle) else expr
         body = "\n    assume(%s); // ASSUMPTION: %s" % (e2, why) + body
-    sig, body = normalize_params(sig, body, stats)
+    sig, body = normalize_params(sig, body, stats, byref=getattr(spec, "byref", False))
     # `mut x: T` parameters: Verus wants the binding immutable in the signature
     # loop invariants
     if name in spec.loops:
@@ -1104,7 +1112,7 @@ def extract_impl(path, header_lit, macro, args, handle, spec, stats, canary):
     return "\n".join(out) + "\n" + "\n".join(silent_out)
 
 
-def extract_free_fn(path, name, macro, args, clauses, loops, rewrites, stats, canary, trusted=False):
+def extract_free_fn(path, name, macro, args, clauses, loops, rewrites, stats, canary, trusted=False, byref=False, ret="r"):
     text = get_text(path, macro, args)
     ms = [m for m in re.finditer(r"(?:pub(?:\([^)]*\))?\s+)?fn\s+%s\b" % re.escape(name), text)]
     if len(ms) != 1:
@@ -1118,6 +1126,8 @@ def extract_free_fn(path, name, macro, args, clauses, loops, rewrites, stats, ca
     spec.rewrites = [(name, a, b) for (a, b) in rewrites]
     if trusted:
         spec.trusted.add(name)
+    spec.byref = byref
+    spec.ret[name] = ret
     fn["sig"] = re.sub(r"^(pub(\([^)]*\))?\s+)?fn", "pub fn", fn["sig"].lstrip())
     return process_fn(fn, spec, False, stats, canary)
 
@@ -1342,7 +1352,8 @@ def generate(template_path, variant, canary=False):
             trusted = "trusted" in rest[2:]
             if trusted:
                 stats["trusted_fns"] += 1
-            out.append(extract_free_fn(path, name, kv.get("macro"), args, clauses, loops, rewrites, stats, canary, trusted))
+            out.append(extract_free_fn(path, name, kv.get("macro"), args, clauses, loops, rewrites, stats, canary, trusted,
+                                       byref="byref" in rest[2:], ret=kv.get("ret", "r")))
             stats["sources"].append("fn %s::%s" % (path, name))
             continue
         raise ExtractError("%s:%d: unknown directive %s" % (template_path, i + 1, d))
